@@ -67,8 +67,8 @@ class GlobalFacts:
         return res
 
     # ---------------------------------------------------------------- events per CFG node
-    def node_events(self, f, cfg_node):
-        key = (f.qual, cfg_node.id)
+    def node_events(self, f, cfg_node, evkey=None):
+        key = (evkey or f.qual, cfg_node.id)
         if key in self._events:
             return self._events[key]
         locs, declared = self.func_locals(f)
@@ -233,8 +233,20 @@ class GlobalFacts:
         tg = [t for t in tg if t.qual in funcs]
         return tg
 
-    def _intra(self, f, funcs, universe):
-        cfg = self.ctx.cfg(f)
+    def body_exposure(self, f, stmts, funcs):
+        """UpExposed / MustAssign of a statement list of `f` taken as a unit that starts with nothing assigned
+        (used for loop bodies: what one iteration may read from the previous one)."""
+        from .cfg import CFG
+        fake = ast.FunctionDef(name=f.node.name, args=f.node.args, body=list(stmts), decorator_list=[], returns=None,
+                               type_comment=None)
+        cfg = CFG(fake)
+        universe = {(m, g) for m in self.modules for g in self.mod_globals[m]}
+        key = ("\0body", f.qual, id(stmts[0]) if stmts else 0)
+        return self._intra(f, funcs, universe, cfg=cfg, evkey=key)
+
+    def _intra(self, f, funcs, universe, cfg=None, evkey=None):
+        if cfg is None:
+            cfg = self.ctx.cfg(f)
         reach = cfg.reachable_nodes()
         order = [n for n in cfg.nodes if n.id in reach]
         IN = {n.id: None for n in order}     # None = top (universe)
@@ -247,7 +259,7 @@ class GlobalFacts:
             iters += 1
             n = work.pop()
             d = set(IN[n.id]) if IN[n.id] is not None else set(universe)
-            for kind, what, node in self.node_events(f, n):
+            for kind, what, node in self.node_events(f, n, evkey):
                 if kind in ("read", "mut"):
                     if what not in d:
                         if what not in exposed:
